@@ -9,6 +9,7 @@
  *   GN s n | GU s n | GIN s n | GIU s n        ini_val_get_int/_uint, ini_vali_get_int/_uint
  *   E                 full enumeration through ini_sect_enum / ini_sect_val_enum
  *   C                 ini_buf_calc_size        N a cap | N r delta   ini_buf_gen into cap (or size+delta) bytes
+ *   RT                generate the text, parse it into a SECOND real store, report text + that store's enumeration
  *   O                 the observation record of IniStore!ObsStore/ObsGen (E + every Q lookup + C + gen for EVERY
  *                     capacity 0..size+1)      X             destroy + create
  * Everything is read through the PUBLIC interface.  Inputs live in exact-size heap blocks (ASan red zones).
@@ -21,6 +22,10 @@
 #include <ctype.h>
 #include "vh_util.h"
 #include "utils/ini.h"
+
+/* every answer line is assembled in memory and written in one piece: a case that dies leaves no partial line */
+static FILE *g_out;
+#define printf(...) fprintf(g_out, __VA_ARGS__)
 
 #define CANARY 0xA5
 #define MAXTOK 64
@@ -230,6 +235,21 @@ static void run_op(char *op) {
 	} else if ((!strcmp(o, "GN") || !strcmp(o, "GU") || !strcmp(o, "GIN") || !strcmp(o, "GIU")) && nt >= 3) {
 		bytes_t s = tok_bytes(t[1]), n = tok_bytes(t[2]);
 		int ins = (o[1] == 'I'), uns = (o[strlen(o) - 1] == 'U'), rc, neg = 0; uint64_t mag = 0;
+		/* the numeric getters are only asked for texts that are plain decimals of <= 18 digits (anything else is the
+		 * business of str2num, not of the store); otherwise the op degrades to the plain getter */
+		const uint8_t *pv = NULL; size_t pvs = 0; int plain = 0;
+		rc = ins ? ini_vali_get(ini, s.p, s.n, n.p, n.n, &pv, &pvs) : ini_val_get(ini, s.p, s.n, n.p, n.n, &pv, &pvs);
+		if (rc == 0) {
+			size_t i = (pvs > 0 && pv[0] == '-') ? 1 : 0;
+			if (pvs - i < 1 || pvs - i > 18 || (i && uns)) plain = 1;
+			for (size_t j = i; j < pvs; j++) if (pv[j] < '0' || pv[j] > '9') plain = 1;
+		}
+		if (plain) {
+			ev_begin(ins ? "GetI" : "Get"); kv_bytes("s", s.p, s.n); kv_bytes("n", n.p, n.n); printf(",");
+			put_get(ins, 0, s, n); ev_end();
+			vh_buf_free(s.p); vh_buf_free(n.p);
+			return;
+		}
 		if (uns) {
 			size_t x = 0;
 			rc = ins ? ini_vali_get_uint(ini, s.p, s.n, n.p, n.n, &x) : ini_val_get_uint(ini, s.p, s.n, n.p, n.n, &x);
@@ -260,6 +280,24 @@ static void run_op(char *op) {
 		if (rc == 0 && over == 0 && out) kv_bytes("out", out, n);
 		ev_end();
 		free(out);
+	} else if (!strcmp(o, "RT")) {
+		/* text round trip ON THE REAL CODE: generate, parse the text into a second store, observe that one */
+		size_t total = 0, n = 0; ini_p saved = ini, other = NULL;
+		ini_buf_calc_size(ini, &total);
+		uint8_t *txt = vh_buf(total);
+		int rc = total ? ini_buf_gen(ini, txt, total, &n) : 0;
+		if (ini_create(&other) != 0) abort();
+		int rc2 = ini_buf_parse(other, txt, rc == 0 ? n : 0);
+		ev_begin("RoundTrip"); printf(",\"rc\":%d,\"rc2\":%d", rc, rc2); kv_bytes("text", txt, rc == 0 ? n : 0);
+		ini = other;
+		printf(",\"sects\":"); put_enum();
+		size_t total2 = 0; ini_buf_calc_size(other, &total2);
+		uint8_t *txt2 = vh_buf(total2); size_t n2 = 0;
+		int rc3 = total2 ? ini_buf_gen(other, txt2, total2, &n2) : 0;
+		kv_bytes("text2", txt2, rc3 == 0 ? n2 : 0);
+		ini = saved;
+		ev_end();
+		ini_destroy(other); vh_buf_free(txt); vh_buf_free(txt2);
 	} else if (!strcmp(o, "O")) {
 		ev_begin("Obs"); printf(",\"store\":"); put_obs_store(); printf(",\"gen\":"); put_obs_gen(); ev_end();
 	} else {
@@ -276,6 +314,9 @@ int main(void) {
 		alarm(60);
 		if (ini_create(&ini) != 0) abort();
 		first_ev = 1;
+		char *obuf = NULL; size_t olen = 0;
+		g_out = open_memstream(&obuf, &olen);
+		if (!g_out) abort();
 		printf("[");
 		char *save = NULL;
 		/* split on ';' by hand (run_op uses strtok) */
@@ -288,7 +329,10 @@ int main(void) {
 		}
 		(void)save;
 		printf("]\n");
+		fclose(g_out); g_out = NULL;
+		fwrite(obuf, 1, olen, stdout);
 		fflush(stdout);
+		free(obuf);
 		ini_destroy(ini); ini = NULL;
 		alarm(0);
 	}
